@@ -9,5 +9,8 @@ def range_from_index(index: int | slice, length: int) -> range:
 
 
 def slice_from_range(r: range) -> slice:
+    if not r and r.step < 0:
+        # e.g. range(-1, 0, -1): as a slice, start -1 would mean the last element.
+        return slice(0, 0, r.step)
     stop = r.stop if r.stop != -1 else None
     return slice(r.start, stop, r.step)
